@@ -56,6 +56,22 @@ type carrierOpt struct {
 	register  func(reg grpc.ServiceRegistrar) // extra registrations
 	basePath  string
 	tls       bool
+	// decorate registers the scripted service through grpchan.WithInterceptor with pass-through interceptors
+	decorate bool
+}
+
+func passThroughUnary(ctx context.Context, req interface{}, _ *grpc.UnaryServerInfo, h grpc.UnaryHandler) (interface{}, error) {
+	return h(ctx, req)
+}
+func passThroughStream(srv interface{}, ss grpc.ServerStream, _ *grpc.StreamServerInfo, h grpc.StreamHandler) error {
+	return h(srv, ss)
+}
+
+func registerScripted(reg grpc.ServiceRegistrar, svc *Service, o carrierOpt) {
+	if o.decorate {
+		reg = grpchan.WithInterceptor(reg, passThroughUnary, passThroughStream)
+	}
+	reg.RegisterService(&ScriptedDesc, svc)
 }
 
 func NewInproc(svc *Service, o carrierOpt) *Carrier {
@@ -69,7 +85,7 @@ func NewInproc(svc *Service, o carrierOpt) *Carrier {
 	if o.streamInt != nil {
 		ch.WithServerStreamInterceptor(o.streamInt)
 	}
-	ch.RegisterService(&ScriptedDesc, svc)
+	registerScripted(ch, svc, o)
 	if o.register != nil {
 		o.register(ch)
 	}
@@ -100,7 +116,7 @@ func NewHTTPServer(svc *Service, o carrierOpt) *Carrier {
 		sopts = append(sopts, httpgrpc.WithServerStreamInterceptor(o.streamInt))
 	}
 	s := httpgrpc.NewServer(sopts...)
-	s.RegisterService(&ScriptedDesc, svc)
+	registerScripted(s, svc, o)
 	if o.register != nil {
 		o.register(s)
 	}
@@ -114,7 +130,7 @@ func NewHTTPMux(svc *Service, o carrierOpt) *Carrier {
 		base = "/"
 	}
 	reg := grpchan.HandlerMap{}
-	reg.RegisterService(&ScriptedDesc, svc)
+	registerScripted(reg, svc, o)
 	if o.register != nil {
 		o.register(reg)
 	}
